@@ -2,7 +2,7 @@
 from checks_common import three
 
 CHECK = {
-    "runs": three("c14_ids", [], scales=(0.12, 0.25, 0.6)),
+    "runs": [dict(r, scale_quick=round(r["scale"] * 3, 3)) for r in three("c14_ids", [], scales=(0.12, 0.25, 0.6))],
     "design_ref": "DESIGN.md §5 C14",
     "technique": "concurrent allocate/deallocate stress over a tiny id range with PCT-style stalls in the CAS windows "
                  "(ida:* hook points), shadow ownership flags + plain owner tags, solo phases against a model free set, "
